@@ -4,7 +4,7 @@ CONSTANTS
   Lits = {"color", "COLOR", "c~olor", "left", "lef~t", "top"}
   Values = {"red", "blue", "1px"}
   Prios = {"", "!important", "!IMPORTANT"}
-  MaxLen = 4
+  MaxLen = 3
   MaxHist = 6
 CONSTRAINT Bounded
 VIEW View
